@@ -162,6 +162,18 @@ func (m *machine) check(extra *smt.Term, timeout time.Duration, wantModel bool) 
 		m.script.Ref(v) // declare before use; no emission inside the racing goroutines
 	}
 	if m.h.Race && len(m.solvers) > 1 {
+		// the primary solver alone gets a short slice first (most queries are
+		// easy and racing costs a kill+restart of the losers); then all race.
+		first := 1500 * time.Millisecond
+		if first > timeout {
+			first = timeout
+		}
+		res, model, err := m.solvers[0].Check(m.script, ex, first, vars)
+		if err != nil {
+			m.w.noteSolverError(m.solvers[0].Name, err)
+		} else if res != smt.Unknown {
+			return res, model
+		}
 		return m.race(ex, timeout, vars)
 	}
 	// escalation: each solver with a short slice first, then the full timeout
